@@ -131,3 +131,8 @@ Example window_example :
   map (fun age => reclaim_now 1000 ((1000 - age) mod 16)) [0;1;2;3;4;12;13;14;15;16;17;18;19;35]
   = map (fun age => RECLAIM_AGE + 2 <=? (age + 2) mod 16) [0;1;2;3;4;12;13;14;15;16;17;18;19;35].
 Proof. vm_compute. reflexivity. Qed.
+
+(* "old enough" means old enough for the collector: the cascade may reclaim a node at once only if its stamp
+   is at least as old as the age at which the collector itself would run a deferred destruction *)
+Theorem threshold_covers_grace : EXPIRE_AFTER <= RECLAIM_AGE.
+Proof. unfold EXPIRE_AFTER, RECLAIM_AGE. lia. Qed.
